@@ -625,3 +625,178 @@ Qed.
 
 Example ft_degrees_ex : map (degree (ft_edges 6)) [0; 8; 9; 12; 44; 45; 98] = [6; 6; 6; 6; 6; 1; 1].
 Proof. vm_compute. reflexivity. Qed.
+
+(* ---------------------------------------------------------------------------------------------- *)
+(* distance between hosts, for every even k >= 2 *)
+
+(* distance from the host x0 to any node *)
+Definition pot (x0 c : coord) : nat :=
+  match x0 with
+  | Host p0 e0 i0 =>
+      match c with
+      | Host p e i => if (p0 =? p) && (e0 =? e) && (i0 =? i) then 0
+                      else if (p0 =? p) && (e0 =? e) then 2 else if p0 =? p then 4 else 6
+      | Edge p e => if (p0 =? p) && (e0 =? e) then 1 else if p0 =? p then 3 else 5
+      | Aggr p a => if p0 =? p then 2 else 4
+      | Core _ _ => 3
+      end
+  | _ => 0
+  end.
+
+Lemma pot_lipschitz k x0 u v : In (u, v) (cedges k) -> pot x0 u <= pot x0 v + 1 /\ pot x0 v <= pot x0 u + 1.
+Proof.
+  destruct x0 as [| | |p0 e0 i0]; try (cbn; lia).
+  unfold cedges. rewrite !in_app_iff. intros [H|[H|H]].
+  - apply in_ce_pod in H as (p & a & e & _ & _ & _ & [= -> ->]). cbn [pot].
+    destruct (p0 =? p); destruct (e0 =? e); cbn [andb]; lia.
+  - apply in_ce_core in H as (a & b & p & _ & _ & _ & [= -> ->]). cbn [pot].
+    destruct (p0 =? p); lia.
+  - apply in_ce_host in H as (p & e & i & _ & _ & _ & [= -> ->]). cbn [pot].
+    destruct (p0 =? p); destruct (e0 =? e); destruct (i0 =? i); cbn [andb]; lia.
+Qed.
+
+Lemma adjb_coord k ce a z : adjb (map (numpair k) ce) a z = true ->
+  exists u v, (In (u, v) ce \/ In (v, u) ce) /\ a = num k u /\ z = num k v.
+Proof.
+  unfold adjb. intros H. apply existsb_exists in H as (e & He & H). apply in_map_iff in He as ((u, v) & <- & Hin).
+  unfold numpair in H. cbn [fst snd] in H. apply orb_true_iff in H as [H|H]; apply andb_true_iff in H as [H1 H2];
+    apply Nat.eqb_eq in H1, H2; subst.
+  - exists u, v. auto.
+  - exists v, u. auto.
+Qed.
+
+Lemma adjb_in k ce u v : In (u, v) ce \/ In (v, u) ce -> adjb (map (numpair k) ce) (num k u) (num k v) = true.
+Proof.
+  intros H. unfold adjb. apply existsb_exists. destruct H as [H|H].
+  - exists (numpair k (u, v)). split; [apply in_map; exact H|]. unfold numpair. cbn [fst snd]. rewrite !Nat.eqb_refl. reflexivity.
+  - exists (numpair k (v, u)). split; [apply in_map; exact H|]. unfold numpair. cbn [fst snd]. rewrite !Nat.eqb_refl. apply orb_true_r.
+Qed.
+
+Lemma last_cons_default {A : Type} (l : list A) x d d' : last (x :: l) d = last (x :: l) d'.
+Proof.
+  revert x. induction l as [|y l IH]; intros x; [reflexivity|].
+  change (last (x :: y :: l) d) with (last (y :: l) d). change (last (x :: y :: l) d') with (last (y :: l) d'). apply IH.
+Qed.
+
+(* no walk from x0 reaches a node in fewer steps than its potential *)
+Lemma walk_lower h x0 : 0 < h -> forall rest a,
+  walkb (ft_edges (2 * h)) (a :: rest) = true ->
+  pot x0 (decode (2 * h) (last (a :: rest) a)) <= pot x0 (decode (2 * h) a) + length rest.
+Proof.
+  intros Hh. rewrite (ft_edges_coord h Hh). induction rest as [|z rest IH]; intros a Hw.
+  - cbn [last length]. lia.
+  - cbn [walkb] in Hw. apply andb_true_iff in Hw as [Hadj Hw]. specialize (IH z Hw).
+    apply adjb_coord in Hadj as (u & v & Hin & -> & ->).
+    assert (Hl : pot x0 u <= pot x0 v + 1 /\ pot x0 v <= pot x0 u + 1).
+    { destruct Hin as [Hin|Hin]; [apply (pot_lipschitz _ _ _ _ Hin)|]. destruct (pot_lipschitz _ x0 _ _ Hin). lia. }
+    assert (Hvu : valid (2 * h) u /\ valid (2 * h) v).
+    { destruct Hin as [Hin|Hin]; apply valid_cedges in Hin; cbn [fst snd] in Hin; tauto. }
+    rewrite (decode_num h u Hh) by tauto. rewrite (decode_num h v Hh) in IH by tauto.
+    replace (last (num (2 * h) u :: num (2 * h) v :: rest) (num (2 * h) u)) with (last (num (2 * h) v :: rest) (num (2 * h) v)).
+    + cbn [length]. lia.
+    + change (last (num (2 * h) u :: num (2 * h) v :: rest) (num (2 * h) u)) with (last (num (2 * h) v :: rest) (num (2 * h) u)).
+      apply last_cons_default.
+Qed.
+
+Lemma hostdist_pot h p e i q f j : 0 < h -> valid (2 * h) (Host p e i) -> valid (2 * h) (Host q f j) ->
+  hostdist (2 * h) (num (2 * h) (Host p e i)) (num (2 * h) (Host q f j)) = pot (Host p e i) (Host q f j).
+Proof.
+  intros Hh H1 H2. unfold hostdist. rewrite !(decode_num h) by assumption. reflexivity.
+Qed.
+
+(* a shortest walk, explicitly *)
+Definition cpath (x y : coord) : list coord :=
+  match x, y with
+  | Host p e i, Host q f j =>
+      if (p =? q) && (e =? f) && (i =? j) then []
+      else if (p =? q) && (e =? f) then [Edge p e; y]
+      else if p =? q then [Edge p e; Aggr p 0; Edge q f; y]
+      else [Edge p e; Aggr p 0; Core 0 0; Aggr q 0; Edge q f; y]
+  | _, _ => []
+  end.
+
+Lemma in_cedges_pod k p a e : p < k -> a < k / 2 -> e < k / 2 -> In (Aggr p a, Edge p e) (cedges k).
+Proof. intros. unfold cedges. apply in_or_app. left. apply in_ce_pod. exists p, a, e. auto. Qed.
+Lemma in_cedges_core k a b p : a < k / 2 -> b < k / 2 -> p < k -> In (Core a b, Aggr p a) (cedges k).
+Proof. intros. unfold cedges. apply in_or_app. right. apply in_or_app. left. apply in_ce_core. exists a, b, p. auto. Qed.
+Lemma in_cedges_host k p e i : p < k -> e < k / 2 -> i < k / 2 -> In (Edge p e, Host p e i) (cedges k).
+Proof. intros. unfold cedges. apply in_or_app. right. apply in_or_app. right. apply in_ce_host. exists p, e, i. auto. Qed.
+
+Lemma cpath_walk h x y : 0 < h ->
+  match x, y with Host _ _ _, Host _ _ _ => True | _, _ => False end ->
+  valid (2 * h) x -> valid (2 * h) y ->
+  walkb (ft_edges (2 * h)) (num (2 * h) x :: map (num (2 * h)) (cpath x y)) = true /\
+  last (num (2 * h) x :: map (num (2 * h)) (cpath x y)) (num (2 * h) x) = num (2 * h) y /\
+  length (cpath x y) = pot x y.
+Proof.
+  intros Hh Hxy Hx Hy. rewrite (ft_edges_coord h Hh).
+  destruct x as [| | |p e i]; try contradiction. destruct y as [| | |q f j]; try contradiction.
+  unfold valid in Hx, Hy. rewrite half_double in Hx, Hy. destruct Hx as (Hp & He & Hi). destruct Hy as (Hq & Hf & Hj).
+  assert (Hh2 : 2 * h / 2 = h) by apply half_double.
+  unfold cpath, pot.
+  destruct (p =? q) eqn:Epq; destruct (e =? f) eqn:Eef; destruct (i =? j) eqn:Eij; cbn [andb];
+    try apply Nat.eqb_eq in Epq; try apply Nat.eqb_eq in Eef; try apply Nat.eqb_eq in Eij; subst;
+    cbn [map walkb last length]; rewrite ?andb_true_r;
+    repeat match goal with
+    | |- _ /\ _ => split
+    | |- _ && _ = true => apply andb_true_iff; split
+    | |- adjb _ _ _ = true => apply adjb_in
+    | |- _ = _ => reflexivity
+    end.
+  all: try (right; apply in_cedges_host; rewrite ?Hh2; lia).
+  all: try (left; apply in_cedges_host; rewrite ?Hh2; lia).
+  all: try (right; apply in_cedges_pod; rewrite ?Hh2; lia).
+  all: try (left; apply in_cedges_pod; rewrite ?Hh2; lia).
+  all: try (right; apply in_cedges_core; rewrite ?Hh2; lia).
+  all: try (left; apply in_cedges_core; rewrite ?Hh2; lia).
+Qed.
+
+(* hostdist is the graph distance between hosts in fattree k: no walk is shorter, and a walk of that
+   length exists.  For EVERY even k >= 2. *)
+Theorem hostdist_is_distance : forall k, Nat.even k = true -> 2 <= k ->
+  forall x y, is_host k x = true -> is_host k y = true ->
+  (forall rest, walkb (ft_edges k) (x :: rest) = true -> last (x :: rest) x = y -> hostdist k x y <= length rest) /\
+  (exists rest, walkb (ft_edges k) (x :: rest) = true /\ last (x :: rest) x = y /\ length rest = hostdist k x y) /\
+  (x <> y -> hostdist k x y = 2 \/ hostdist k x y = 4 \/ hostdist k x y = 6).
+Proof.
+  intros k He Hk x y Hx Hy. destruct (even_ge2 k He Hk) as (h & Hh & ->).
+  destruct (host_decode h x Hh Hx) as (p & e & i & Dx & Vx & Nx).
+  destruct (host_decode h y Hh Hy) as (q & f & j & Dy & Vy & Ny).
+  assert (Hd : hostdist (2 * h) x y = pot (Host p e i) (Host q f j)).
+  { rewrite <- Nx, <- Ny. apply hostdist_pot; assumption. }
+  split; [|split].
+  - intros rest Hw Hl. pose proof (walk_lower h (Host p e i) Hh rest x Hw) as Hlow.
+    rewrite Hl, Dx, Dy in Hlow. rewrite Hd.
+    assert (pot (Host p e i) (Host p e i) = 0) by (cbn [pot]; rewrite !Nat.eqb_refl; reflexivity). lia.
+  - destruct (cpath_walk h (Host p e i) (Host q f j) Hh I Vx Vy) as (Hw & Hl & Hlen).
+    exists (map (num (2 * h)) (cpath (Host p e i) (Host q f j))). rewrite <- Nx, <- Ny at 1 2.
+    rewrite Nx in *. rewrite Ny in *. split; [exact Hw|]. split; [exact Hl|]. rewrite map_length, Hlen, Hd. reflexivity.
+  - intros Hne. rewrite Hd. cbn [pot].
+    destruct (p =? q) eqn:Epq; destruct (e =? f) eqn:Eef; destruct (i =? j) eqn:Eij; cbn [andb]; auto.
+    apply Nat.eqb_eq in Epq, Eef, Eij. subst. congruence.
+Qed.
+
+Example hostdist_ex : map (hostdist 4 20) [20; 21; 22; 24; 35] = [0; 2; 4; 6; 6].
+Proof. reflexivity. Qed.
+
+(* what the per-run check of a generated path establishes: a path accepted by path_ok is a simple
+   walk between two distinct hosts, and no walk between them in fattree k is shorter *)
+Theorem path_ok_shortest : forall k src dst p, Nat.even k = true -> 2 <= k -> path_ok k src dst p = true ->
+  exists rest, p = src :: rest /\ last p src = dst /\ walkb (ft_edges k) p = true /\ nodupb p = true /\
+    forall rest', walkb (ft_edges k) (src :: rest') = true -> last (src :: rest') src = dst -> length rest <= length rest'.
+Proof.
+  intros k src dst p He Hk H. unfold path_ok in H.
+  repeat (apply andb_true_iff in H as [H ?]).
+  match goal with X : (length p =? _) = true |- _ => apply Nat.eqb_eq in X; rename X into Hlen end.
+  match goal with X : (hd _ p =? src) = true |- _ => apply Nat.eqb_eq in X; rename X into Hhd end.
+  match goal with X : (last p _ =? dst) = true |- _ => apply Nat.eqb_eq in X; rename X into Hlast end.
+  destruct p as [|s rest]; [cbn in Hlen; discriminate|]. cbn [hd] in Hhd. subst s.
+  exists rest. split; [reflexivity|].
+  assert (Hl : last (src :: rest) src = dst).
+  { rewrite <- Hlast. apply last_cons_default. }
+  split; [exact Hl|]. split; [assumption|]. split; [assumption|].
+  intros rest' Hw' Hl'.
+  assert (Hs : is_host k src = true) by (unfold is_host; apply andb_true_iff; split; assumption). assert (Hd : is_host k dst = true) by assumption.
+  destruct (hostdist_is_distance k He Hk src dst Hs Hd) as (Hlow & _).
+  specialize (Hlow rest' Hw' Hl'). cbn [length] in Hlen. lia.
+Qed.
